@@ -79,7 +79,7 @@ IPv6(s) ==
           /\ Len(lp) + Weight(rp, TRUE) <= 7
 IPvFuture(s) ==
   LET dot == Index(s, 46) IN
-  /\ Len(s) >= 4 /\ s[1] = 118 /\ dot >= 3
+  /\ Len(s) >= 4 /\ s[1] \in {118, 86} /\ dot >= 3      \* "v" is an ABNF literal: case-insensitive (RFC 5234)
   /\ AllSat(Sub(s, 2, dot - 1), 1, HexDig)
   /\ dot < Len(s)
   /\ AllSat(From(s, dot + 1), 1, LAMBDA c : Unreserved(c) \/ SubDelim(c) \/ c = 58)
@@ -185,4 +185,61 @@ Resolve(base, ref) ==
                  !.hasF = r.hasF, !.frag = r.frag ]
     ELSE [ b EXCEPT !.path = IF r.path[1] = 47 THEN RemoveDots(r.path) ELSE RemoveDots(Merge(b, r.path)),
                     !.hasQ = r.hasQ, !.query = r.query, !.hasF = r.hasF, !.frag = r.frag ])
+\* ---------------- the resolver AS SHIPPED (third-party oxiri 0.2): a named, deliberate deviation ----------------
+\* Transcribed so that where the library is known to differ from RFC 3986 5.2 the trace specification can tell
+\* "the known third-party behaviour" (KNOWN-FINDING) from any other wrong answer (VIOLATION).
+\* It removes dot segments only while copying the REFERENCE's path, never from the base's own path or from a
+\* reference that carries a scheme or an authority, pops literal segments, and refuses a result whose path would
+\* start with "//" without an authority.
+EndsWith(s, suf) == Len(s) >= Len(suf) /\ Sub(s, Len(s) - Len(suf) + 1, Len(s)) = suf
+Trunc(s, n) == Sub(s, 1, Len(s) - n)
+\* out = whole output so far; A = length of the part before the path (scheme ":" ["//" authority])
+LibRemoveLast(out, A, hasAuth) ==
+  LET path == From(out, A + 1)  i == LastIndex(path, 47) IN
+  IF i > 0 THEN Sub(out, 1, A + i - 1) \o <<47>>
+  ELSE Sub(out, 1, A) \o (IF hasAuth THEN <<47>> ELSE <<>>)
+\* one path terminator (c = 47 for "/", 0 for the end of the path): returns [out, cont] ; cont = the "/" was consumed as a plain separator
+LibTerminator(out, A, hasAuth, c) ==
+  LET path == From(out, A + 1) IN
+  IF EndsWith(path, <<47, 46, 46>>) THEN [out |-> LibRemoveLast(Trunc(out, 3), A, hasAuth), plain |-> FALSE]
+  ELSE IF EndsWith(path, <<47, 46>>) \/ path = <<46>> THEN [out |-> Trunc(out, 1), plain |-> FALSE]
+  ELSE IF path = <<46, 46>> THEN [out |-> Trunc(out, 2), plain |-> FALSE]
+  ELSE IF c = 47 THEN [out |-> out \o <<47>>, plain |-> TRUE]
+  ELSE [out |-> out, plain |-> FALSE]
+RECURSIVE LibPath(_, _, _, _, _)
+\* copies the reference path `in` from index i onto out; result [err, out]
+LibPath(in, i, out, A, hasAuth) ==
+  IF i > Len(in) THEN
+     LET t == LibTerminator(out, A, hasAuth, 0) IN
+     [err |-> StartsWith2(From(t.out, A + 1), 47, 47) /\ ~hasAuth, out |-> t.out]
+  ELSE IF in[i] = 47 THEN
+     LET t == LibTerminator(out, A, hasAuth, 47) IN
+     IF ~t.plain /\ StartsWith2(From(t.out, A + 1), 47, 47) /\ ~hasAuth THEN [err |-> TRUE, out |-> t.out]
+     ELSE LibPath(in, i + 1, t.out, A, hasAuth)
+  ELSE LibPath(in, i + 1, Append(out, in[i]), A, hasAuth)
+LibResolve(base, ref) ==
+  LET b == Parse(base)  r == Parse(ref)
+      pre == b.scheme \o <<58>> \o (IF b.hasAuth THEN <<47, 47>> \o b.auth ELSE <<>>)       \* base[..authority_end]
+      A == Len(pre)
+      toPath == pre \o b.path                                                               \* base[..path_end]
+      toQuery == toPath \o (IF b.hasQ THEN <<63>> \o b.query ELSE <<>>)                      \* base[..query_end]
+      tail == (IF r.hasQ THEN <<63>> \o r.query ELSE <<>>) \o (IF r.hasF THEN <<35>> \o r.frag ELSE <<>>)
+  IN
+  IF r.hasScheme THEN [err |-> FALSE, out |-> ref]
+  ELSE IF r.hasAuth THEN [err |-> FALSE, out |-> b.scheme \o <<58>> \o ref]
+  ELSE IF r.path = <<>> THEN
+       (IF r.hasQ THEN [err |-> FALSE, out |-> toPath \o tail]
+        ELSE [err |-> FALSE, out |-> toQuery \o tail])
+  ELSE IF r.path[1] = 47 THEN
+       LET p == LibPath(r.path, 2, pre \o <<47>>, A, b.hasAuth) IN [err |-> p.err, out |-> p.out \o tail]
+  ELSE LET p == LibPath(r.path, 1, LibRemoveLast(toPath, A, b.hasAuth), A, b.hasAuth) IN [err |-> p.err, out |-> p.out \o tail]
+
+\* ---------------- relativisation (C17) ----------------
+\* number of leading "../" steps of a reference
+RECURSIVE LeadingDotDotsFrom(_, _)
+LeadingDotDotsFrom(r, i) == IF i + 1 <= Len(r) /\ r[i] = 46 /\ r[i + 1] = 46 /\ (i + 2 > Len(r) \/ r[i + 2] \in {47, 63, 35})
+                            THEN 1 + (IF i + 2 <= Len(r) /\ r[i + 2] = 47 THEN LeadingDotDotsFrom(r, i + 3) ELSE 0) ELSE 0
+LeadingDotDots(r) == LeadingDotDotsFrom(r, 1)
+\* same document: equal up to query and fragment
+SameDocument(a, b) == NoQuery(a) = NoQuery(b)
 ====
